@@ -53,9 +53,52 @@ def run(ctx, rep):
                 rep.violate(f"{cell['solver']} x {cell['datafit']} x {cell['penalty']}: the result depends on memory outside "
                             "the arrays (bounds-checked and unchecked runs differ)", dict(sig, kind="result-differs"),
                             cell=cell, impl_output=dict(checked=r["w"], unchecked=q["w"]))
+    run_kernels(ctx, rep)
     rep.extra["matrix"] = dict(model_accepted=len(acc), pairs_run=len(sample), exhaustive=bool(ctx.thorough))
     for r in checked[:2]:
         rep.sample(dict(cell=r["cell"], outcome=r["outcome"]))
+
+
+def run_kernels(ctx, rep):
+    """every penalty / datafit / helper kernel on a working set at the end of the index range, bounds-checked vs not"""
+    import json
+    import os
+    import subprocess
+    import sys
+    from concurrent.futures import ThreadPoolExecutor
+
+    def go(env_extra):
+        env = dict(os.environ)
+        env.update(env_extra)
+        env["PYTHONPATH"] = os.environ.get("SKGLM_REPO", "/repo") + ":" + matrix.ROOT + ":" + env.get("PYTHONPATH", "")
+        pr = subprocess.run([sys.executable, "-m", "harness.kernel_bounds_worker"], capture_output=True, text=True, env=env,
+                            cwd=matrix.ROOT, timeout=1800)
+        calls = [json.loads(l[5:]) for l in pr.stdout.splitlines() if l.startswith("CALL ")]
+        return calls, pr.stdout.rstrip().endswith("END"), pr.returncode, pr.stderr[-300:]
+    with ThreadPoolExecutor(max_workers=2) as ex:
+        (chk, chk_end, chk_rc, chk_err), (pln, pln_end, pln_rc, pln_err) = ex.map(go, [{"NUMBA_BOUNDSCHECK": "1"}, {}])
+    byname = {c["call"]: c for c in pln}
+    if not chk_end or not pln_end:
+        last = (chk if not chk_end else pln)[-1]["call"] if (chk if not chk_end else pln) else "start"
+        rep.violate(f"the interpreter terminated while calling compiled kernels (after {last})",
+                    dict(site="kernels", kind="crash"), impl_output=dict(rc_checked=chk_rc, rc_plain=pln_rc,
+                                                                         err=(chk_err if not chk_end else pln_err)))
+    for c in chk:
+        q = byname.get(c["call"])
+        rep.count("kernel:" + c["call"].split(".")[0], not c["ok"], ("kernel", c["call"]))
+        sig = dict(site=c["call"].split("[")[0], kind="kernel-boundscheck")
+        if not c["ok"] and (q is None or q["ok"] or c.get("cls") == "IndexError"):
+            rep.violate(f"{c['call']}: fails under NUMBA_BOUNDSCHECK=1 ({c.get('cls')}: {c.get('msg', '')[:100]})", sig,
+                        kernel=c["call"], impl_output=dict(checked=c, unchecked=q))
+        elif c["ok"] and q is not None and q["ok"] and c["val"] != q["val"]:
+            a, b = c["val"], q["val"]
+            same = len(a) == len(b) and all((x is None and y is None) or (x is not None and y is not None and
+                                                                       abs(x - y) <= 1e-8 * (1 + abs(x))) for x, y in zip(a, b))
+            if not same:
+                rep.violate(f"{c['call']}: the bounds-checked and the unchecked call return different values (the result "
+                            "depends on memory outside the arrays)", dict(sig, kind="kernel-result-differs"),
+                            kernel=c["call"], impl_output=dict(checked=a, unchecked=b))
+    rep.extra["kernel_calls"] = len(chk)
 
 
 def replay(ctx, payload):
